@@ -170,7 +170,7 @@ var noopHandler = http.HandlerFunc(func(http.ResponseWriter, *http.Request) {})
 // Construction routes. The documentation promises that all of them yield the same middleware (C06, C08, C09);
 // the HTTP-level checks therefore do not only look at freshly built middlewares but also at ones that carry
 // state left behind by earlier calls.
-const nRoutes = 9
+const nRoutes = 10
 
 var routeNames = [nRoutes]string{
 	"NewMiddleware(cfg)",
@@ -182,6 +182,7 @@ var routeNames = [nRoutes]string{
 	"NewMiddleware(other); Reconfigure(&cfg) performed from inside ResponseWriter.Header() of an in-flight request",
 	"NewMiddleware(other); h := Wrap(handler); requests through h; Reconfigure(&cfg); later requests still go through h",
 	"new(Middleware); h := Wrap(handler) while passthrough; requests through h; Reconfigure(&cfg); later requests still go through h",
+	"NewMiddleware(cfg); debug mode toggled to the opposite value; requests (and Config()) in that mode; debug mode toggled back",
 }
 
 // forward lets a handler obtained from Wrap early serve a wrapped handler chosen later (same w and r are passed on).
@@ -258,6 +259,7 @@ func warmUp(m *cors.Middleware, extra ...vlib.Req) {
 	for _, r := range reqs {
 		h.ServeHTTP(vlib.NewRec(), r.HTTP())
 	}
+	_ = m.Config() // whatever Config() may cache must not matter later
 }
 
 // buildVia0 builds a middleware for lit through the given route and then sets the debug mode.
@@ -316,6 +318,13 @@ func buildVia0(route int, lit CfgLit, debug bool, early **earlyWrap, extra ...vl
 		}
 		m.SetDebug(debug)
 		err = m.Reconfigure(&cfg)
+	case 9:
+		m, err = cors.NewMiddleware(cfg)
+		if err == nil {
+			m.SetDebug(!debug)
+			warmUp(m, extra...)
+			m.SetDebug(debug)
+		}
 	case 8:
 		m = new(cors.Middleware)
 		e := &earlyWrap{fwd: &forward{}}
